@@ -194,3 +194,4 @@ pub mod c09;
 pub mod c33;
 pub mod c34;
 pub mod c34tx;
+pub mod c28;
